@@ -38,6 +38,8 @@ def judge (spec : String) (params : List Nat) (ops : List (OpRec GOp GRet)) : Op
   | "maxpq", [] => some (linCheck (maxpq 0) ops)
   | "map", _ => some (linCheck map ops)
   | "bag", _ => some (linCheck (bag []) ops)
+  | "lock", [n] => some (linCheck (lockSpec false n) ops)
+  | "rlock", [n] => some (linCheck (lockSpec true n) ops)
   | _, _ => none
 
 structure LcState where
